@@ -1,7 +1,8 @@
-(* C17 - the accept boundary under the two hypotheses on the binding set:
-   [Hexit] a binding that ends the prompt fires with nothing left in the key
-   buffer; [Hcpr] a cursor position report alone in the key buffer is matched
-   at once by a binding that does not end the prompt. *)
+(* C17 - the accept boundary: once a handler has set the result, only cursor
+   position reports reach handlers; the keys left in the key buffer go back
+   to the queue; nothing is thrown away by the next reset().  The only
+   hypothesis on the binding set is [cpr_silent]: the report binding does
+   not end the prompt and does not touch the edit state. *)
 From Coq Require Import ZArith List Bool Lia.
 From PTK Require Import Lib.Py Model.C03_Vt100Parser Model.C17_Typeahead Proofs.C17_Core Proofs.C17_Conserve.
 Import ListNotations.
@@ -29,6 +30,7 @@ Variable lookup_scan : E -> list kp -> option bid.
 Variable waits : E -> list kp -> bool.
 Variable eff : bid -> list kp -> E -> E * option res.
 Variable is_cprh : bid -> bool.
+Variable cpr_lookup : E -> option bid.
 Variable restart : E -> E.
 Variable pfeed : str -> PS -> PS * list kp.
 Variable pflush : PS -> PS * list kp.
@@ -40,111 +42,69 @@ Notation call := (call eff is_cprh).
 Notation scan := (@scan E bid res lookup_scan).
 Notation loop := (loop lookup lookup_scan waits eff is_cprh).
 Notation send := (send lookup lookup_scan waits eff is_cprh).
-Notation process_q := (process_q lookup lookup_scan waits eff is_cprh).
-Notation pk := (@pk E bid res PS lookup lookup_scan waits eff is_cprh).
-Notation feed_keys := (@feed_keys E bid res PS lookup lookup_scan waits eff is_cprh).
-Notation do_read := (@do_read E bid res PS lookup lookup_scan waits eff is_cprh pfeed res_eof).
-Notation step := (@step E bid res PS lookup lookup_scan waits eff is_cprh restart pfeed pflush res_eof).
-Notation run := (@run E bid res PS lookup lookup_scan waits eff is_cprh restart pfeed pflush res_eof).
+Notation handle_cpr := (handle_cpr eff is_cprh cpr_lookup).
+Notation deliver := (deliver lookup lookup_scan waits eff is_cprh cpr_lookup).
+Notation process_q := (process_q lookup lookup_scan waits eff is_cprh cpr_lookup).
+Notation pk := (@pk E bid res PS lookup lookup_scan waits eff is_cprh cpr_lookup).
+Notation feed_keys := (@feed_keys E bid res PS lookup lookup_scan waits eff is_cprh cpr_lookup).
+Notation do_read := (@do_read E bid res PS lookup lookup_scan waits eff is_cprh cpr_lookup pfeed res_eof).
+Notation step := (@step E bid res PS lookup lookup_scan waits eff is_cprh cpr_lookup restart pfeed pflush res_eof).
+Notation run := (@run E bid res PS lookup lookup_scan waits eff is_cprh cpr_lookup restart pfeed pflush res_eof).
 
-(* the key buffer between two activations: empty, or still a prefix of a longer binding *)
-Definition KB (c : core) : Prop := kbuf c = [] \/ waits (est c) (kbuf c) = true.
+(* the binding a report is delivered to neither ends the prompt nor edits *)
+Definition cpr_silent : Prop :=
+  forall e b, cpr_lookup e = Some b -> forall ks e', eff b ks e' = (e', None).
 
-Definition exit_clean : Prop :=
-  forall (c : core) it, cph c = CRun res -> KB c ->
-    match cph (send it c) with
-    | CRun _ => True
-    | CDone _ => kbuf (send it c) = [] /\
-                 exists evs, rlog (send it c) = evs ++ rlog c /\ Forall early evs
-    | CBroken _ => False
-    end.
-
-Definition cpr_fires : Prop :=
-  forall e c, is_cpr c = true ->
-    waits e [c] = false /\ exists b, lookup e [c] = Some b /\ forall e', snd (eff b [c] e') = None.
-
-Hypothesis Hexit : exit_clean.
-Hypothesis Hcpr : cpr_fires.
+Hypothesis Hsil : cpr_silent.
 
 (* ---------------------------------------------------------------------- *)
 
-Lemma loop_KB fuel : forall fl (c : core),
-  (length (kbuf c) < fuel)%nat -> cph (loop fuel fl c) <> CBroken res -> KB (loop fuel fl c).
+Lemma call_from_run b ks (c : core) : cph c = CRun res ->
+  (cph (call b ks c) = CRun res \/ exists x, cph (call b ks c) = CDone x) /\
+  rlog (call b ks c) = EInvoke false b ks :: rlog c /\ kbuf (call b ks c) = kbuf c /\ pb (call b ks c) = pb c.
 Proof.
-  induction fuel as [|f IH]; intros fl c H NB; [lia|]. cbn [C17_Typeahead.loop] in *.
-  destruct (kbuf c) as [|k0 tl0] eqn:KBE; [left; exact KBE|].
-  assert (G : forall b i, scan (length (k0 :: tl0)) c = Some (b, i) ->
-          (length (kbuf (set_kbuf (skipn i (k0 :: tl0)) (call b (firstn i (k0 :: tl0)) c))) < f)%nat).
-  { intros b i S. apply scan_bounds in S. cbn [kbuf set_kbuf]. rewrite skipn_length. cbn [length] in *. lia. }
-  assert (D : (length (kbuf (set_kbuf tl0 (add_ev (@EDrop bid (late c) k0) c))) < f)%nat).
-  { cbn [kbuf set_kbuf]. cbn [length] in H. lia. }
-  destruct (cph c) eqn:PH.
-  - destruct (negb fl && waits (est c) (k0 :: tl0)) eqn:W.
-    + right. rewrite KBE. apply andb_prop in W. tauto.
-    + destruct (lookup (est c) (k0 :: tl0)); [left; reflexivity|].
-      destruct (scan (length (k0 :: tl0)) c) as [[b i]|] eqn:S.
-      * apply IH; [exact (G b i eq_refl)|exact NB].
-      * apply IH; [exact D|exact NB].
-  - destruct (negb fl && waits (est c) (k0 :: tl0)) eqn:W.
-    + right. rewrite KBE. apply andb_prop in W. tauto.
-    + destruct (lookup (est c) (k0 :: tl0)); [left; reflexivity|].
-      destruct (scan (length (k0 :: tl0)) c) as [[b i]|] eqn:S.
-      * apply IH; [exact (G b i eq_refl)|exact NB].
-      * apply IH; [exact D|exact NB].
-  - exfalso. apply NB. exact PH.
+  intros PH. unfold C17_Typeahead.call, late; cbn [cph rlog kbuf pb]. rewrite PH.
+  split; [|auto]. destruct (snd (eff b ks (est c))); [right; eexists; reflexivity|left; reflexivity].
 Qed.
 
-Lemma send_KB it (c : core) : cph (send it c) <> CBroken res -> KB (send it c).
-Proof.
-  destruct it as [k|]; unfold C17_Typeahead.send; intros NB.
-  - apply loop_KB; [|exact NB].
-    destruct (is_cpr k && negb (cpr_alone lookup waits is_cprh c k)); cbn [kbuf set_kbuf set_bad];
-      rewrite app_length; cbn [length]; lia.
-  - apply loop_KB; [lia|exact NB].
-Qed.
-
-(* events logged by an activation that ends with the result still unset are early *)
-Lemma call_run b ks (c : core) : cph (call b ks c) = CRun res -> cph c = CRun res.
-Proof.
-  unfold C17_Typeahead.call; cbn [cph]. destruct (snd (eff b ks (est c))); [|auto].
-  destruct (cph c); congruence.
-Qed.
-
-Lemma loop_run_back fuel : forall fl (c : core), cph (loop fuel fl c) = CRun res -> cph c = CRun res.
-Proof.
-  intros fl c H. destruct (cph c) eqn:PH; [reflexivity| |].
-  - exfalso. refine (@loop_not_run E bid res lookup lookup_scan waits eff is_cprh fuel fl c _ H). unfold not_run. congruence.
-  - exfalso. refine (@loop_not_run E bid res lookup lookup_scan waits eff is_cprh fuel fl c _ H). unfold not_run. congruence.
-Qed.
-
-Lemma loop_log_run fuel : forall fl (c : core), cph (loop fuel fl c) = CRun res ->
+(* one activation of the coroutine started while the result is not set *)
+Lemma loop_from_run fuel : forall fl (c : core), cph c = CRun res ->
+  cph (loop fuel fl c) <> CBroken res /\
+  (late (loop fuel fl c) = true -> kbuf (loop fuel fl c) = []) /\
   exists evs, rlog (loop fuel fl c) = evs ++ rlog c /\ Forall early evs.
 Proof.
-  induction fuel as [|f IH]; intros fl c H; cbn [C17_Typeahead.loop] in *.
-  - destruct (kbuf c); exists []; split; auto.
-  - destruct (kbuf c) as [|k0 tl0] eqn:KBE; [exists []; split; auto|].
-    pose proof (loop_run_back (S f) fl c) as RB. cbn [C17_Typeahead.loop] in RB. rewrite KBE in RB.
-    specialize (RB H). rewrite RB in *.
-    destruct (negb fl && waits (est c) (k0 :: tl0)); [exists []; split; auto|].
+  induction fuel as [|f IH]; intros fl c PH; cbn [C17_Typeahead.loop].
+  - destruct (kbuf c); (split; [cbn [cph set_oof]; congruence|]);
+      (split; [unfold late; cbn [cph set_oof]; rewrite PH; discriminate|]); exists []; split; auto.
+  - destruct (kbuf c) as [|k0 tl0] eqn:KBE.
+    { split; [congruence|]. split; [unfold late; rewrite PH; discriminate|]. exists []. split; auto. }
+    rewrite PH.
+    destruct (negb fl && waits (est c) (k0 :: tl0)).
+    { split; [congruence|]. split; [unfold late; rewrite PH; discriminate|]. exists []. split; auto. }
     destruct (lookup (est c) (k0 :: tl0)) as [b|].
-    + exists [EInvoke (late c) b (k0 :: tl0)]. split; [reflexivity|].
-      constructor; [|constructor]. unfold late. rewrite RB. reflexivity.
-    + destruct (scan (length (k0 :: tl0)) c) as [[b i]|].
-      * destruct (IH _ _ H) as (evs & L & F). exists (evs ++ [EInvoke (late c) b (firstn i (k0 :: tl0))]).
-        split; [rewrite L, <- app_assoc; reflexivity|].
-        apply Forall_app; split; [exact F|]. constructor; [|constructor]. unfold late. rewrite RB. reflexivity.
-      * destruct (IH _ _ H) as (evs & L & F). exists (evs ++ [@EDrop bid (late c) k0]).
-        split; [rewrite L, <- app_assoc; reflexivity|].
-        apply Forall_app; split; [exact F|]. constructor; [|constructor]. unfold late. rewrite RB. reflexivity.
-Qed.
-
-Lemma send_log_run it (c : core) : cph (send it c) = CRun res ->
-  exists evs, rlog (send it c) = evs ++ rlog c /\ Forall early evs.
-Proof.
-  destruct it as [k|]; unfold C17_Typeahead.send; intros H.
-  - destruct (loop_log_run _ _ _ H) as (evs & L & F). exists evs. split; [|exact F].
-    rewrite L. destruct (is_cpr k && negb (cpr_alone lookup waits is_cprh c k)); reflexivity.
-  - apply loop_log_run. exact H.
+    { destruct (call_from_run b (k0 :: tl0) c PH) as (P & L & _).
+      split; [cbn [cph set_kbuf]; destruct P as [P|[x P]]; congruence|].
+      split; [reflexivity|]. exists [EInvoke false b (k0 :: tl0)]. cbn [rlog set_kbuf]. rewrite L.
+      split; [reflexivity|]. constructor; [reflexivity|constructor]. }
+    assert (R : forall (c1 : core) evs1,
+              (cph c1 = CRun res \/ exists x, cph c1 = CDone x) -> rlog c1 = evs1 ++ rlog c -> Forall early evs1 ->
+              cph (retry (loop f false) c1) <> CBroken res /\
+              (late (retry (loop f false) c1) = true -> kbuf (retry (loop f false) c1) = []) /\
+              exists evs, rlog (retry (loop f false) c1) = evs ++ rlog c /\ Forall early evs).
+    { intros c1 evs1 P1 L1 F1. unfold retry. destruct (late c1) eqn:LT.
+      - cbn [cph kbuf rlog push_back]. split; [destruct P1 as [P1|[x P1]]; congruence|].
+        split; [reflexivity|]. exists evs1. auto.
+      - assert (P1' : cph c1 = CRun res).
+        { destruct P1 as [P1|[x P1]]; [exact P1|]. unfold late in LT. rewrite P1 in LT. discriminate. }
+        destruct (IH false c1 P1') as (A & B & evs & L & F).
+        split; [exact A|]. split; [exact B|]. exists (evs ++ evs1). rewrite L, L1, app_assoc.
+        split; [reflexivity|]. apply Forall_app; auto. }
+    destruct (scan (length (k0 :: tl0)) c) as [[b i]|].
+    + destruct (call_from_run b (firstn i (k0 :: tl0)) c PH) as (P & L & _).
+      apply (R _ [EInvoke false b (firstn i (k0 :: tl0))]); cbn [cph rlog set_kbuf]; auto.
+      constructor; [reflexivity|constructor].
+    + apply (R _ [@EDrop bid (late c) k0]); cbn [cph rlog set_kbuf add_ev]; auto.
+      constructor; [unfold late; rewrite PH; reflexivity|constructor].
 Qed.
 
 Lemma early_ok (evs : list (ev bid)) : Forall early evs -> Forall ok_ev evs.
@@ -157,62 +117,80 @@ Qed.
 (* ---------------------------------------------------------------------- *)
 (* the invariant *)
 
-Definition Jc (c : core) : Prop :=
-  cph c <> CBroken res /\ (late c = true -> kbuf c = []) /\ KB c /\ Forall ok_ev (rlog c).
+Definition Jc0 (c : core) : Prop :=
+  cph c <> CBroken res /\ (late c = true -> kbuf c = []) /\ Forall ok_ev (rlog c).
+Definition Jc (c : core) : Prop := Jc0 c /\ pb c = [].
 
-Lemma send_Jc_run it (c : core) : cph c = CRun res -> Jc c -> Jc (send it c).
+Lemma send_Jc_run it (c : core) : cph c = CRun res -> Jc0 c -> Jc0 (send it c).
 Proof.
-  intros PH (NB & LK & K & OK).
-  pose proof (Hexit c it PH K) as HX.
-  assert (NB' : cph (send it c) <> CBroken res) by (intros X; rewrite X in HX; exact HX).
-  unfold Jc. split; [exact NB'|]. split; [|split; [apply send_KB; exact NB'|]].
-  - unfold late. destruct (cph (send it c)) eqn:P; [discriminate| |congruence].
-    intros _. apply HX.
-  - destruct (cph (send it c)) eqn:P.
-    + destruct (send_log_run it c P) as (evs & L & F). rewrite L. apply Forall_app; split; [apply early_ok; exact F|exact OK].
-    + destruct HX as (_ & evs & L & F). rewrite L. apply Forall_app; split; [apply early_ok; exact F|exact OK].
-    + contradiction.
+  intros PH (NB & LK & OK). destruct it as [k|]; unfold C17_Typeahead.send.
+  - destruct (loop_from_run (S (S (length (kbuf c)))) false (set_kbuf (kbuf c ++ [k]) c) PH) as (A & B & evs & L & F).
+    split; [exact A|]. split; [exact B|]. rewrite L. apply Forall_app; split; [apply early_ok; exact F|exact OK].
+  - destruct (loop_from_run (S (length (kbuf c))) true c PH) as (A & B & evs & L & F).
+    split; [exact A|]. split; [exact B|]. rewrite L. apply Forall_app; split; [apply early_ok; exact F|exact OK].
 Qed.
 
-Lemma send_cpr_done k (c : core) r : is_cpr k = true -> cph c = CDone r -> kbuf c = [] ->
-  exists b, kbuf (send (IKey k) c) = [] /\ cph (send (IKey k) c) = CDone r /\
-            rlog (send (IKey k) c) = EInvoke true b [k] :: rlog c /\ est (send (IKey k) c) = fst (eff b [k] (est c)).
+Lemma handle_cpr_eq k (c : core) :
+  est (handle_cpr k c) = est c /\ kbuf (handle_cpr k c) = kbuf c /\ cph (handle_cpr k c) = cph c /\
+  pb (handle_cpr k c) = pb c /\
+  (rlog (handle_cpr k c) = rlog c \/ exists b, cpr_lookup (est c) = Some b /\ rlog (handle_cpr k c) = EInvoke (late c) b [k] :: rlog c).
 Proof.
-  intros CK PH KBE. destruct (Hcpr (est c) k CK) as (W & b & LK & NX).
-  exists b. unfold C17_Typeahead.send. rewrite KBE. cbn [length app].
-  set (c1 := if is_cpr k && negb (cpr_alone lookup waits is_cprh c k) then set_bad c else c).
-  assert (E1 : est c1 = est c) by (unfold c1; destruct (is_cpr k && negb (cpr_alone lookup waits is_cprh c k)); reflexivity).
-  assert (P1 : cph c1 = CDone r) by (unfold c1; destruct (is_cpr k && negb (cpr_alone lookup waits is_cprh c k)); exact PH).
-  assert (R1 : rlog c1 = rlog c) by (unfold c1; destruct (is_cpr k && negb (cpr_alone lookup waits is_cprh c k)); reflexivity).
-  cbn [C17_Typeahead.loop kbuf set_kbuf cph est]. rewrite P1, E1, W, LK. cbn [negb andb].
-  unfold C17_Typeahead.call, late; cbn [kbuf set_kbuf cph rlog est]. rewrite E1, P1, R1, (NX (est c)).
-  repeat split; reflexivity.
+  unfold C17_Typeahead.handle_cpr. destruct (cpr_lookup (est c)) as [b|] eqn:L; [|auto 6].
+  unfold C17_Typeahead.call; cbn [est kbuf cph pb rlog]. rewrite (Hsil (est c) b L [k] (est c)). cbn [fst snd].
+  repeat split; auto. right. exists b. auto.
 Qed.
 
-Lemma send_Jc_done_cpr k (c : core) r : is_cpr k = true -> cph c = CDone r -> Jc c -> Jc (send (IKey k) c).
+Lemma handle_cpr_Jc0 k (c : core) : is_cpr k = true -> Jc0 c -> Jc0 (handle_cpr k c).
 Proof.
-  intros CK PH (NB & LK & K & OK).
-  assert (KBE : kbuf c = []) by (apply LK; unfold late; rewrite PH; reflexivity).
-  destruct (send_cpr_done k c r CK PH KBE) as (b & A1 & A2 & A3 & _).
-  unfold Jc, KB. rewrite A1, A2, A3. repeat split; auto; try congruence.
-  constructor; [|exact OK]. cbn. exists k. auto.
+  intros CK (NB & LK & OK). destruct (handle_cpr_eq k c) as (E1 & E2 & E3 & E4 & E5).
+  unfold Jc0, late in *. rewrite E2, E3. split; [exact NB|]. split; [exact LK|].
+  destruct E5 as [E5|(b & _ & E5)]; rewrite E5; [exact OK|].
+  constructor; [|exact OK]. cbn. destruct (match cph c with CRun _ => false | _ => true end); [exists k; auto|exact I].
 Qed.
 
-Lemma pq_J q : forall c : core, Jc c -> Forall nf q ->
+Lemma deliver_Jc0_run it (c : core) : cph c = CRun res -> Jc0 c -> Jc0 (deliver it c).
+Proof.
+  intros PH J. destruct it as [k|]; cbn [C17_Typeahead.deliver]; [|apply send_Jc_run; assumption].
+  destruct (is_cpr k) eqn:CK; [apply handle_cpr_Jc0; assumption|apply send_Jc_run; assumption].
+Qed.
+
+Lemma nf_map ks : Forall nf (map IKey ks).
+Proof. induction ks; constructor; auto. unfold nf; discriminate. Qed.
+
+Lemma Jc_clear (c : core) : Jc0 c -> Jc (clear_pb c).
+Proof. intros J. split; [exact J|reflexivity]. Qed.
+
+(* process_keys: also with a _Flush item in front (LFlushKeys) *)
+Lemma pq_J q : forall c : core, Jc c -> Forall nf (match q with IFlush :: q' => q' | _ => q end) ->
+  (match q with IFlush :: _ => cph c = CRun res | _ => True end) ->
   Jc (fst (process_q q c)) /\ (cph (fst (process_q q c)) = CRun res -> snd (process_q q c) = []) /\
   Forall nf (snd (process_q q c)).
 Proof.
-  induction q as [|it q IH]; intros c J F; cbn [C17_Typeahead.process_q]; [auto|].
-  inversion F as [|? ? F1 F2]; subst.
+  induction q as [|it q IH]; intros c J F HF; cbn [C17_Typeahead.process_q]; [auto|].
+  assert (Fq : Forall nf q) by (destruct it; [inversion F; assumption|exact F]).
+  assert (IHq : forall c', Jc c' -> Jc (fst (process_q q c')) /\
+            (cph (fst (process_q q c')) = CRun res -> snd (process_q q c') = []) /\ Forall nf (snd (process_q q c'))).
+  { intros c' J'. apply IH; [exact J'| |].
+    - destruct q as [|[k|] q2]; [exact Fq|exact Fq|]. inversion Fq as [|? ? X _]. exfalso. apply X. reflexivity.
+    - destruct q as [|[k|] q2]; [exact I|exact I|]. inversion Fq as [|? ? X _]. exfalso. apply X. reflexivity. }
+  destruct J as (J0 & P0).
   destruct (cph c) eqn:PH.
-  - apply IH; [apply send_Jc_run; assumption|exact F2].
+  - pose proof (deliver_Jc0_run it c PH J0) as J'.
+    destruct (IHq (clear_pb (deliver it c)) (Jc_clear _ J')) as (A & B & C). cbn [fst snd].
+    split; [exact A|]. split.
+    + intros X. pose proof (@process_q_run_back E bid res lookup lookup_scan waits eff is_cprh cpr_lookup q _ X) as Y.
+      cbn [cph clear_pb] in Y.
+      rewrite (@deliver_pb_run E bid res lookup lookup_scan waits eff is_cprh cpr_lookup it c Y), P0, (B X). reflexivity.
+    + apply Forall_app; split; [apply nf_map|exact C].
   - assert (NR : not_run c) by (unfold not_run; congruence).
-    destruct (item_is_cpr it) eqn:CI.
-    + destruct it as [k|]; [|discriminate]. apply IH; [eapply send_Jc_done_cpr; eassumption|exact F2].
-    + destruct (IH c J F2) as (A & B & C). cbn [fst snd].
-      destruct (@process_q_done E bid res lookup lookup_scan waits eff is_cprh q c NR) as (_ & _ & NR').
-      split; [exact A|]. split; [intros X; exfalso; exact (NR' X)|]. constructor; assumption.
-  - destruct J as (NB & _). contradiction.
+    destruct it as [k|]; [|discriminate HF]. cbn [item_is_cpr].
+    destruct (is_cpr k) eqn:CK.
+    + apply IHq. cbn [C17_Typeahead.deliver]. rewrite CK. split; [apply handle_cpr_Jc0; assumption|].
+      destruct (handle_cpr_eq k c) as (_ & _ & _ & E4 & _). rewrite E4. exact P0.
+    + destruct (IHq c (conj J0 P0)) as (A & B & C). cbn [fst snd].
+      destruct (@process_q_done E bid res lookup lookup_scan waits eff is_cprh cpr_lookup q c NR) as (_ & _ & NR').
+      split; [exact A|]. split; [intros X; exfalso; exact (NR' X)|]. constructor; [inversion F; assumption|exact C].
+  - destruct J0 as (NB & _). contradiction.
 Qed.
 
 Definition Js (s : sys) : Prop :=
@@ -223,13 +201,12 @@ Definition Js (s : sys) : Prop :=
 Lemma Js_pk (s : sys) : at_ s <> Detached -> Jc (co s) -> Forall nf (queue s) -> Forall nf (store s) ->
   wclosed s = false -> Js (pk s).
 Proof.
-  intros A J F G W. unfold C17_Typeahead.pk, Js; cbn [co queue store at_ with_co with_queue wclosed].
-  destruct (pq_J (queue s) (co s) J F) as (A1 & A2 & A3).
-  split; [exact A1|]. split; [intros X; contradiction|]. split; [intros X _; exact (A2 X)|]. auto.
+  intros A J F G W. unfold C17_Typeahead.pk, Js, with_co, with_queue; cbn [co queue store at_ wclosed].
+  destruct (pq_J (queue s) (co s) J) as (A1 & A2 & A3).
+  - destruct (queue s) as [|[k|] q2]; [exact F|exact F|]. inversion F; assumption.
+  - destruct (queue s) as [|[k|] q2]; [exact I|exact I|]. inversion F as [|? ? X _]. exfalso. apply X. reflexivity.
+  - split; [exact A1|]. split; [intros X; contradiction|]. split; [intros X _; exact (A2 X)|]. auto.
 Qed.
-
-Lemma nf_map ks : Forall nf (map IKey ks).
-Proof. induction ks; constructor; auto. unfold nf; discriminate. Qed.
 
 Lemma Js_feed_keys p ks (s : sys) : at_ s <> Detached -> Js s -> Js (feed_keys p ks s).
 Proof.
@@ -240,62 +217,60 @@ Qed.
 Lemma Js_finish r (s : sys) : cph (co s) = CDone r -> Js s -> Js (finish r s).
 Proof.
   intros PH (J & _ & _ & F & G & W). unfold C17_Typeahead.finish, Js; cbn [co queue store at_ wclosed].
-  destruct J as (NB & LK & K & OK).
-  repeat split; auto; try congruence.
-  - apply LK. unfold late. rewrite PH. reflexivity.
-  - apply Forall_app; split; [exact G|]. apply Forall_forall. intros i Hi. apply filter_In in Hi.
-    rewrite Forall_forall in F. apply F. tauto.
+  destruct J as ((NB & LK & OK) & P0).
+  split; [repeat split; assumption|]. split; [intros _; split; [apply LK; unfold late; rewrite PH; reflexivity|reflexivity]|].
+  split; [intros _ X; congruence|]. split; [constructor|]. split; [|exact W].
+  apply Forall_app; split; [exact G|]. apply Forall_forall. intros i Hi. apply filter_In in Hi.
+  rewrite Forall_forall in F. apply F. tauto.
 Qed.
 
 Lemma Js_do_read n (s : sys) : at_ s <> Detached -> Js s -> Js (do_read n s).
 Proof.
   intros A J. unfold C17_Typeahead.do_read. cbv zeta. destruct (pipe s).
-  - destruct J as (Jc0 & _ & _ & F & G & W). rewrite W. apply Js_pk; auto.
+  - destruct J as (Jc0' & _ & _ & F & G & W). rewrite W. apply Js_pk; auto.
   - apply Js_feed_keys; [exact A|].
-    destruct J as (Jc0 & D & Q & F & G & W). unfold Js; cbn [co queue store at_ wclosed].
-    split; [exact Jc0|]. split; [exact D|]. split; [exact Q|]. auto.
+    destruct J as (Jc0' & D & Q & F & G & W). unfold Js; cbn [co queue store at_ wclosed].
+    split; [exact Jc0'|]. split; [exact D|]. split; [exact Q|]. auto.
 Qed.
 
 Lemma Js_step (s : sys) l : l <> LClose -> Js s -> Js (step s l).
 Proof.
-  intros NC J. pose proof J as (Jc0 & D & Q & F & G & W).
-  pose proof Jc0 as (NB & LK & K & OK).
+  intros NC J. pose proof J as (Jc0' & D & Q & F & G & W).
+  pose proof Jc0' as ((NB & LK & OK) & P0).
   unfold C17_Typeahead.step.
   destruct (cph (co s)) eqn:PH; destruct l; try exact J; try congruence.
   all: try (destruct (wclosed s) eqn:W'; [exact J|]; unfold Js; cbn [co queue store at_ wclosed];
-            (split; [exact Jc0|]); (split; [exact D|]);
+            (split; [exact Jc0'|]); (split; [exact D|]);
             (split; [intros X Y; first [apply Q; [reflexivity|exact Y] | congruence]|]); auto; fail).
   all: try (destruct (at_ s) eqn:A; try exact J;
             try (apply Js_do_read; [congruence|exact J]);
             try (destruct (wcpr (co s)); [exact J|apply Js_do_read; [congruence|exact J]]);
             try (apply Js_feed_keys; [congruence|exact J]); fail).
-  - (* LFlushKeys, CRun *)
+  - (* LFlushKeys, result not set: the queue is empty, _Flush is consumed at once *)
     destruct (at_ s) eqn:A; [exact J| |]; (destruct (kbuf (co s)) eqn:KBE; [exact J|]);
       (assert (QE : queue s = []) by (apply Q; [reflexivity|congruence]));
-      unfold C17_Typeahead.pk; cbn [queue co with_queue with_co]; rewrite QE; cbn [app C17_Typeahead.process_q];
-      rewrite PH; cbn [fst snd];
-      unfold Js, with_co, with_queue; cbn [co queue store at_ wclosed];
-      (split; [apply send_Jc_run; assumption|]);
-      (split; [intros X; congruence|]); (split; [auto|]); auto.
-  - (* LStart, CRun *)
+      unfold C17_Typeahead.pk, Js, with_co, with_queue; cbn [queue co store at_ wclosed]; rewrite QE; cbn [app];
+      (destruct (pq_J [IFlush] (co s) Jc0' (Forall_nil _) PH) as (A1 & A2 & A3));
+      (split; [exact A1|]); (split; [intros X; congruence|]); (split; [intros X _; exact (A2 X)|]); auto.
+  - (* LStart *)
     destruct (at_ s) eqn:A; [|exact J|exact J].
     destruct (D eq_refl) as [D1 D2]. rewrite D1, D2.
     apply Js_pk; cbn [co queue store at_ wclosed]; auto; try congruence.
-    unfold Jc, KB, late; cbn [cph kbuf rlog est]. repeat split; auto; try congruence.
+    unfold Jc, Jc0, late; cbn [cph kbuf rlog est pb]. repeat split; auto; try congruence.
     constructor; [exact I|exact OK].
-  - (* LFlushKeys, CDone *)
+  - (* LFlushKeys, result set *)
     assert (KBE : kbuf (co s) = []) by (apply LK; unfold late; rewrite PH; reflexivity).
     rewrite KBE. destruct (at_ s); exact J.
-  - (* LStart, CDone *)
+  - (* LStart with the previous result still recorded *)
     destruct (at_ s) eqn:A; [|exact J|exact J].
     destruct (D eq_refl) as [D1 D2]. rewrite D1, D2.
     apply Js_pk; cbn [co queue store at_ wclosed]; auto; try congruence.
-    unfold Jc, KB, late; cbn [cph kbuf rlog est]. repeat split; auto; try congruence.
+    unfold Jc, Jc0, late; cbn [cph kbuf rlog est pb]. repeat split; auto; try congruence.
     constructor; [exact I|exact OK].
   - (* LExit *)
     destruct (at_ s) eqn:A; [exact J| |exact J].
     destruct (rcpr s && negb (Nat.eqb (wcpr (co s)) 0)); [|apply Js_finish; assumption].
-    unfold Js; cbn [co queue store at_ wclosed]. split; [exact Jc0|]. split; [congruence|]. split; [congruence|]. auto.
+    unfold Js; cbn [co queue store at_ wclosed]. split; [exact Jc0'|]. split; [congruence|]. split; [congruence|]. auto.
   - (* LExitEnd *)
     destruct (at_ s) eqn:A; try exact J. destruct (wcpr (co s)); [apply Js_finish; assumption|exact J].
   - (* LCprTimeout *)
@@ -304,7 +279,7 @@ Qed.
 
 Lemma Js_init e p r : Js (@init E bid res PS e p r).
 Proof.
-  unfold Js, Jc, KB, late, init, init_core; cbn. repeat split; auto; try congruence; constructor.
+  unfold Js, Jc, Jc0, late, init, init_core; cbn. repeat split; auto; try congruence; constructor.
 Qed.
 
 Lemma Js_run ls : forall s : sys, ~ In LClose ls -> Js s -> Js (run ls s).
@@ -315,6 +290,4 @@ Proof.
 Qed.
 
 End P.
-Arguments cpr_fires {E bid res} lookup waits eff.
-Arguments exit_clean {E bid res} lookup lookup_scan waits eff is_cprh.
-Arguments KB {E bid res} waits c.
+Arguments cpr_silent {E bid res} eff cpr_lookup.
